@@ -208,7 +208,7 @@ def integ_case(arg):
 
 
 def run(ctx):
-    proof = core.prove(MODULES, leanchecker=ctx.thorough)
+    proof = core.prove(MODULES, extra_targets=["AdaptiveProofs.Examples.Misc"], leanchecker=ctx.thorough)
     core.OUT.mkdir(exist_ok=True)
     root = tempfile.mkdtemp(prefix="c13_", dir=core.OUT)
     try:
